@@ -7,6 +7,7 @@
    faithful model (recorded finding C11-intransitive) — where it holds is covered by the exhaustive pair/triple law
    check of the correspondence run. *)
 From EDP Require Import Base.Bytes Base.F64 Term.Term Gen.Ranks Order.Cmp Order.CmpFacts Order.CmpLaws Order.HashStream Order.EqLaws Order.NumLaws Order.Key.
+From EDP Require Gen.HashFields Order.HashFieldsFacts.
 
 (* the two rank tables (term.rs term_type_order, borrowed.rs type_order) are the same table *)
 Theorem C11_rank_tables_agree : forall t, rank_owned t = rank_borrowed t.
@@ -80,6 +81,17 @@ Proof. exact eq_implies_cmp_eq. Qed.
    the hash normalises) *)
 Theorem C11_equal_terms_hash_alike : forall a b, wf a = true -> wf b = true -> teqb a b = true -> hstream a = hstream b.
 Proof. exact eq_implies_same_hash. Qed.
+
+(* ... and the items are the ones the code feeds: the translator reads from types.rs / term.rs which fields ==, the hash
+   and the order of pids, ports and references look at (the same ones, never the preserved LOCAL_EXT bytes), what the fun
+   arm hashes, and that the float arm folds the two zeros together; these are the model's *)
+Theorem C11_identifier_fields_lawful : forallb HashFieldsFacts.row_lawful HashFields.id_fields = true.
+Proof. exact HashFieldsFacts.identifier_fields_lawful. Qed.
+
+Theorem C11_code_hashes_what_the_model_hashes :
+  HashFields.id_fields = HashFieldsFacts.model_id_fields /\
+  HashFields.fun_hash_fields = HashFieldsFacts.model_fun_hash_fields /\ HashFields.float_hash_folds_zeros = true.
+Proof. exact HashFieldsFacts.code_hashes_what_the_model_hashes. Qed.
 
 Theorem C11_equal_floats_same_bits_or_zeros : forall a b, a < 18446744073709551616 -> b < 18446744073709551616 ->
   f64_eqb a b = true -> a = b \/ ((a = 0 \/ a = 9223372036854775808) /\ (b = 0 \/ b = 9223372036854775808)).
